@@ -170,6 +170,7 @@ int main(int argc, char** argv) {
     } else if (op == "Y") { int o, src; ss >> o >> src; ex.copy(o, src); }
     else if (op == "O") { int o; ss >> o; ex.observe_slot(o); }
     else if (op == "E") { int o; ss >> o; ex.reparse(o); }
+    else if (op == "T") { int o; ss >> o; ex.tostring_slot(o); }
     else if (op == "F") {
       std::string a; ss >> a;
       std::string in1 = value(ex, a);
